@@ -493,7 +493,11 @@ def _run_request(world: World, plan):
                     'sim_conn': getattr(getattr(getattr(conn, '_writer', None), 'transport', None), 'conn', None)}
                 alice.spawn(conn.send_message(probe))
         await asyncio.sleep(8.0)
-        results['registry_8'] = list(network.peer_connections)
+        first_look = list(network.peer_connections)
+        # (the peer's own late pierce can be in the middle of being turned away in this very instant: what counts is what
+        # is still registered a moment later)
+        await asyncio.sleep(0.5)
+        results['registry_8'] = [c for c in network.peer_connections if any(c is f for f in first_look)]
         results['open_8'] = [tr for tr in world.net.open_transports(alice.host)
                              if tr.conn.dst.name != 'server']
         # residue, behavioural: a late pierce with each ticket and a late CannotConnect
